@@ -241,7 +241,10 @@ def show(t: Any) -> str:
         return "%s[%s:%s%s]" % (show(t[1]), "" if t[2] is None else show(t[2]), "" if t[3] is None else show(t[3]),
                                 "" if t[4] is None else ":" + show(t[4]))
     if k == "call":
-        args = [show(a) for a in t[2]] + ["%s=%s" % (n, show(v)) for n, v in t[3]]
+        args = [show(a) for a in t[2]] + ["%s=%s" % (n, show(v)) for n, v in t[3] if n != "#"]
+        tag = [v for n, v in t[3] if n == "#"]
+        if tag:
+            return "%s(%s)#%s" % (show(t[1]), ", ".join(args), tag[0][1])
         return "%s(%s)" % (show(t[1]), ", ".join(args))
     if k == "cmp":
         op = {"notin": "not in", "isnot": "is not"}.get(t[1], t[1])
@@ -377,33 +380,50 @@ class Typer:
                 return None
         return None
 
-    # Block.__getattr__ aliases, read from its own source
+    # Block.__getattr__ aliases, read from its own source (through the summariser, so local aliases and named constants are fine)
     def block_aliases(self) -> Dict[str, Tuple[str, ...]]:
         if self._alias_cache is not None:
             return self._alias_cache
+        self._alias_cache = {}          # while computing: no aliases (also guards against recursion)
         out: Dict[str, Tuple[str, ...]] = {}
-        fi = self.repo.functions.get("skepticoin.datatypes.Block.__getattr__")
+        q = "skepticoin.datatypes.Block.__getattr__"
+        fi = self.repo.functions.get(q)
         if fi is not None and len(fi.params) == 2:
-            pname = fi.params[1]
-            for st in fi.node.body:  # type: ignore
-                if not isinstance(st, ast.If):
-                    continue
-                t = st.test
-                if not (isinstance(t, ast.Compare) and len(t.ops) == 1 and isinstance(t.ops[0], ast.In)
-                        and isinstance(t.left, ast.Name) and t.left.id == pname
-                        and isinstance(t.comparators[0], (ast.List, ast.Tuple, ast.Set))):
-                    continue
-                names = [e.value for e in t.comparators[0].elts if isinstance(e, ast.Constant) and isinstance(e.value, str)]
-                if len(st.body) == 1 and isinstance(st.body[0], ast.Return) and isinstance(st.body[0].value, ast.Call):
-                    c = st.body[0].value
-                    if isinstance(c.func, ast.Name) and c.func.id == "getattr" and len(c.args) == 2 \
-                            and isinstance(c.args[1], ast.Name) and c.args[1].id == pname:
-                        d = dotted(c.args[0])
-                        if d and d.startswith("self."):
-                            path = tuple(d.split(".")[1:])
-                            for n in names:
-                                out[n] = path
+            try:
+                from .walker import Walker
+                summ = Walker(self.repo, 0, typer=self).summary(q, 0)
+                selfv, attrv = ("v", fi.params[0]), ("v", fi.params[1])
+                for r in summ.returns():
+                    t = r.term
+                    if not (t[0] == "call" and t[1] == ("g", "builtin:getattr") and len(t[2]) == 2 and t[2][1] == attrv):
+                        continue
+                    path: List[str] = []
+                    x = t[2][0]
+                    while x[0] == "a":
+                        path.append(x[2])
+                        x = x[1]
+                    if x != selfv:
+                        continue
+                    names: List[str] = []
+                    for c in r.pc:
+                        ct = c.term
+                        if c.prov == "branch" and ct[0] == "cmp" and ct[1] == "in" and ct[2] == attrv:
+                            coll = ct[3]
+                            vals = None
+                            if coll[0] in ("list", "tuple", "set"):
+                                vals = [e[1] for e in coll[1] if e[0] == "c"]
+                            elif coll[0] == "g":
+                                ok, v = self.repo.try_const(coll[1])
+                                if ok and isinstance(v, (list, tuple, set, frozenset)):
+                                    vals = list(v)
+                            if vals:
+                                names = [v for v in vals if isinstance(v, str)]
+                    for n in names:
+                        out[n] = tuple(reversed(path))
+            except Exception:
+                out = {}
         self._alias_cache = out
+        self._attr_cache.clear()
         return out
 
     def attr_type(self, cls_q: str, attr: str) -> Type:
@@ -552,8 +572,9 @@ class Norm:
         self.repo = repo
         self.typer = typer or Typer(repo)
         self.var_types: Dict[Term, Type] = {}   # types of free-variable terms (by term)
-        self.on_call: Optional[Callable[[Term, ast.Call, Scope, Any], None]] = None
+        self.on_call: Optional[Callable[[Term, ast.Call, Scope, Any], Optional[Term]]] = None
         self.on_yield: Optional[Callable[[Term, ast.AST], None]] = None
+        self.guard_stack: List[Term] = []      # conditions under which the sub-expression being normalised is evaluated (and/or/if-else)
         self.comp_stack: List[Tuple[Term, Tuple[Term, ...]]] = []
         self._lv = 0
 
@@ -867,13 +888,30 @@ class Norm:
         return v
 
     def n_BoolOp(self, node: ast.BoolOp, scope: Scope) -> Term:
-        vals = [self.as_cond(self.norm(v, scope)) for v in node.values]
+        vals = []
+        n0 = len(self.guard_stack)
+        try:
+            for v in node.values:
+                t = self.as_cond(self.norm(v, scope))
+                vals.append(t)
+                # short-circuit: the next operand is evaluated only if this one was true (and) / false (or)
+                self.guard_stack.append(t if isinstance(node.op, ast.And) else mk_not(t))
+        finally:
+            del self.guard_stack[n0:]
         return mk_and(vals) if isinstance(node.op, ast.And) else mk_or(vals)
 
     def n_IfExp(self, node: ast.IfExp, scope: Scope) -> Term:
         c = self.norm(node.test, scope)
-        a = self.norm(node.body, scope)
-        b = self.norm(node.orelse, scope)
+        self.guard_stack.append(c)
+        try:
+            a = self.norm(node.body, scope)
+        finally:
+            self.guard_stack.pop()
+        self.guard_stack.append(mk_not(c))
+        try:
+            b = self.norm(node.orelse, scope)
+        finally:
+            self.guard_stack.pop()
         return self.mk_ife(c, a, b)
 
     def mk_ife(self, c: Term, a: Term, b: Term) -> Term:
@@ -883,6 +921,19 @@ class Norm:
             return a
         if c == C(False):
             return b
+        # boolean-valued conditionals are conditions
+        if a == C(True) and b == C(False):
+            return c
+        if a == C(False) and b == C(True):
+            return mk_not(c)
+        if b == C(False) and self._boolish(a, self):
+            return mk_and([c, a])
+        if a == C(True) and self._boolish(b, self):
+            return mk_or([c, b])
+        if a == C(False) and self._boolish(b, self):
+            return mk_and([mk_not(c), b])
+        if b == C(True) and self._boolish(a, self):
+            return mk_or([mk_not(c), a])
         # clamp idiom: (C if r > C else r) == min(r, C);  (C if r < C else r) == max(r, C)
         for (x, y, flip) in ((a, b, False), (b, a, True)):
             # value x when cond (or not cond if flip), else y
@@ -895,6 +946,18 @@ class Norm:
                 if x == hi and y == lo:
                     return self.mk_minmax("max", [lo, hi])
         return ("ife", c, a, b)
+
+    @staticmethod
+    def _boolish(t: Term, norm: Optional["Norm"] = None) -> bool:
+        if t[0] in ("cmp", "cmpz", "and", "or", "not") or (t[0] == "c" and isinstance(t[1], bool)) or \
+                (t[0] == "call" and t[1] in (("g", "builtin:isinstance"), ("g", "builtin:any"), ("g", "builtin:all"))):
+            return True
+        if norm is not None and t[0] == "call":
+            try:
+                return norm.type_of(t, None) == P_BOOL
+            except Exception:
+                return False
+        return False
 
     def _as_less(self, c: Term) -> Optional[Tuple[Term, Term, bool]]:
         if c[0] == "cmp" and c[1] in ("<", "<="):
@@ -1125,7 +1188,7 @@ class Norm:
             elt = self.norm(node.elt, inner)
         finally:
             del self.comp_stack[len(self.comp_stack) - len(gens):]
-        return ("comp", kind, elt, gens)
+        return fuse_comp(("comp", kind, elt, gens))
 
     def n_GeneratorExp(self, node: ast.GeneratorExp, scope: Scope) -> Term:
         return self.n_ListComp(node, scope, "list")  # type: ignore
@@ -1151,7 +1214,9 @@ class Norm:
         kwargs = [(k.arg or "**", self.norm(k.value, scope)) for k in node.keywords]
         t = self.mk_call(f, args, kwargs, scope)
         if self.on_call is not None:
-            self.on_call(t, node, scope, (f, args, kwargs))
+            r = self.on_call(t, node, scope, (f, args, kwargs))
+            if r is not None:
+                return r          # value of a transparent (non-API) helper, expanded in place
         return t
 
     def signature_of(self, f: Term, scope: Optional[Scope]) -> Optional[Tuple[FuncInfo, bool]]:
@@ -1234,6 +1299,38 @@ class Norm:
         if f[0] == "a" and f[2] == "keys" and not args and not kwargs:
             pass
         return ("call", f, tuple(args), tuple(sorted(kwargs, key=lambda kv: kv[0])))
+
+
+def untag(t: Any) -> Any:
+    """drop the read identities ('#', n) that the summariser attaches to stream reads inside decoders"""
+    if isinstance(t, tuple):
+        if len(t) == 4 and t[0] == "call" and isinstance(t[3], tuple) and any(isinstance(k, tuple) and k and k[0] == "#" for k in t[3]):
+            return ("call", untag(t[1]), untag(t[2]), tuple(k for k in t[3] if not (isinstance(k, tuple) and k and k[0] == "#")))
+        return tuple(untag(x) for x in t)
+    return t
+
+
+def fuse_comp(t: Term) -> Term:
+    """[f(x) for x in [g(o) for o in O if d(o)] if c(x)]  ==  [f(g(o)) for o in O if d(o) and c(g(o))]"""
+    if t[0] != "comp":
+        return t
+    kind, elt, gens = t[1], t[2], list(t[3])
+    changed = True
+    while changed:
+        changed = False
+        for i, (dom, conds) in enumerate(gens):
+            if dom[0] == "comp" and dom[1] == "list" and dom[3]:
+                bound = ("e", dom, "elem")
+                m = {bound: dom[2]}
+                inner = list(dom[3])
+                new_conds = tuple(sorted(set(inner[-1][1]) | {substitute(c, m) for c in conds}, key=key))
+                inner[-1] = (inner[-1][0], new_conds)
+                rest = [(substitute(d2, m), tuple(substitute(c2, m) for c2 in cs2)) for d2, cs2 in gens[i + 1:]]
+                gens = gens[:i] + inner + rest
+                elt = substitute(elt, m)
+                changed = True
+                break
+    return ("comp", kind, elt, tuple(gens))
 
 
 # --------------------------------------------------------------------------- implication
